@@ -17,6 +17,8 @@ type Violation struct {
 	Rule  string   `json:"rule"`
 	Msg   string   `json:"msg"`
 	Op    int      `json:"op"`
+	// Class, when set by the rule itself, is the witness class (otherwise derived from the history's features).
+	Class string `json:"vclass,omitempty"`
 }
 
 type pendingCall struct {
